@@ -35,6 +35,8 @@ package store
 //@ ghost field logid map[int]NodeID
 //@ ghost field logamt map[int]int
 //@ ghost field loglen int
+// attempts : number of balance-changing calls made on the store, successful or not
+//@ ghost field attempts int
 //@ ghost var effects int
 
 // plainError: the error (if any) is not one of the typed errors the pool and payment layers give a meaning to
@@ -67,7 +69,8 @@ package store
 //@ ensures [frame]   sameLinks(this) && sameDeposits(this)
 //@ defines [log-ok]   err == nil ==> this.loglen == old(this.loglen) + 1 && this.logid == upd(old(this.logid), old(this.loglen), nodeID) && this.logamt == upd(old(this.logamt), old(this.loglen), bigval(credit))
 //@ defines [log-fail] err != nil ==> this.loglen == old(this.loglen) && this.logid == old(this.logid) && this.logamt == old(this.logamt)
-//@ modifies this.acredit, this.tcredit, this.total, this.loglen, this.logid, this.logamt
+//@ defines [attempt]  this.attempts == old(this.attempts) + 1
+//@ modifies this.acredit, this.tcredit, this.total, this.loglen, this.logid, this.logamt, this.attempts
 
 //@ interface store.BalanceStore.GetAccountBalance(account) (result, err)
 //@ ensures [errkind] plainError(err)
@@ -82,7 +85,8 @@ package store
 //@ ensures [frame]   this.tcredit == old(this.tcredit) && sameLinks(this) && sameDeposits(this)
 //@ defines [log-ok]   err == nil ==> this.loglen == old(this.loglen) + 1 && effects == old(effects) + 1
 //@ defines [log-fail] err != nil ==> this.loglen == old(this.loglen) && effects == old(effects)
-//@ modifies this.acredit, this.total, this.loglen, effects
+//@ defines [attempt]  this.attempts == old(this.attempts) + 1
+//@ modifies this.acredit, this.total, this.loglen, this.attempts, effects
 
 // ---- AccountStore ---------------------------------------------------------------------
 
